@@ -45,11 +45,13 @@ func Compact(buf *bytes.Buffer, src []byte, escape bool) error {
 }
 
 func compactAndWrite(buf *bytes.Buffer, dst []byte, src []byte, escape bool) error {
+	// dst is the current content of buf: compact appends to it, only the appended part is new
+	written := len(dst)
 	dst, err := compact(dst, src, escape)
 	if err != nil {
 		return err
 	}
-	if _, err := buf.Write(dst); err != nil {
+	if _, err := buf.Write(dst[written:]); err != nil {
 		return err
 	}
 	return nil
